@@ -23,6 +23,15 @@ def rat(q):
 
 def amount_str(fr, k):
     v = float(fr)
+    if k % 11 == 4 and v != 0:
+        # scientific notation (CSS number grammar): mantissa with at most 4 digits, exact
+        for ex in (2, 1, -1, -2):
+            m = fr / Fraction(10) ** ex
+            if (m * 1000).denominator == 1 and 1 <= abs(m) < 10:
+                ms = repr(float(m))
+                if ms.endswith(".0"):
+                    ms = ms[:-2]
+                return "%s%s%d" % (ms, "e" if k % 2 else "E", ex)
     if fr.denominator == 1:
         n = fr.numerator
         if n == 10 and k % 2:
